@@ -53,6 +53,8 @@ fn ite_parts(tier: &str) -> u32 {
 
 pub fn shards(tier: &str) -> Vec<String> {
     let mut v = vec!["n1:0:t1:all:0".to_string(), "n1:0:t2:all:0".to_string()];
+    // eval on a manager with 40 variables (more levels than one word of packed choices holds)
+    v.push("n40:0:t1:wide:0".to_string());
     for o in ORDERS2 {
         for p in 0..UN_PARTS {
             v.push(format!("n2:{o}:t{}:un:{p}", 1 + p % 2));
@@ -98,6 +100,7 @@ pub fn run(ctx: &mut Ctx) {
     let part: u32 = p[4].parse().unwrap();
     let cfg = Cfg { n, order, threads };
     match (n, p[3]) {
+        (40, "wide") => run_wide(ctx, 40),
         (1, "all") => run_n1(ctx, &cfg),
         (2, "un") => run_unary(ctx, &cfg, part, UN_PARTS),
         (2, "bin") => run_binary(ctx, &cfg, part),
@@ -467,6 +470,71 @@ fn constants_and_vars(ctx: &mut Ctx, tl: &mut Tally, cfg: &Cfg, mref: &TddRef) {
 // ---------------------------------------------------------------------------
 // n = 1: everything, exhaustively
 // ---------------------------------------------------------------------------
+
+/// `eval` on a manager with many variables: every variable, and every pair of variables under all 8 binary
+/// connectives, at all value combinations, with every other variable set to a value that depends on its number
+/// (so that reading the wrong position is visible), arguments given in ascending and in descending order.
+fn run_wide(ctx: &mut Ctx, n: u32) {
+    use oxidd::{Manager, ManagerRef};
+    ctx.group(&format!("eval with {n} variables"), |ctx| {
+        let mref = tdd::new_manager(1 << 16, 1 << 12, 1);
+        mref.with_manager_exclusive(|m| {
+            m.add_vars(n);
+        });
+        let vars: Vec<TddF> = mref.with_manager_shared(|m| (0..n).map(|v| TddF::var(m, v).unwrap()).collect());
+        let mut evals = 0u64;
+        let mut seen = [false; 3];
+        // background value of variable w when it is not one of the variables under test
+        let bg = |w: u32, salt: u32| -> Val { ((w * 2 + salt + w / 16) % 3) as Val };
+        let mut check = |ctx: &mut Ctx, what: &str, f: &TddF, fixed: &[(u32, Val)], expected: Val| {
+            for salt in 0..3u32 {
+                let val = |w: u32| fixed.iter().find(|(v, _)| *v == w).map(|(_, x)| *x).unwrap_or_else(|| bg(w, salt));
+                for rev in [false, true] {
+                    let args: Vec<(u32, Option<bool>)> = if rev { (0..n).rev().map(|w| (w, m3::val_opt(val(w)))).collect() } else { (0..n).map(|w| (w, m3::val_opt(val(w)))).collect() };
+                    let got = m3::opt_val(f.eval(args));
+                    evals += 1;
+                    seen[got as usize] = true;
+                    if got != expected {
+                        ctx.viol(
+                            viol_attrs("eval", "wrong_eval_wide", what.split('(').next().unwrap_or("")),
+                            json!({"n": n, "function": what, "fixed": fixed, "background_salt": salt, "descending_arguments": rev, "expected": m3::val_char(expected).to_string(), "got": m3::val_char(got).to_string()}),
+                            &format!("tdd with {n} variables: eval of {what} with {:?} (other variables: value (2w + {salt} + w/16) mod 3, arguments {}) = {}, expected {}",
+                                fixed.iter().map(|(v, x)| format!("x{v}={}", m3::val_char(*x))).collect::<Vec<_>>(), if rev { "descending" } else { "ascending" }, m3::val_char(got), m3::val_char(expected)),
+                        );
+                        return;
+                    }
+                }
+            }
+        };
+        for v in 0..n {
+            for x in [F, U, T] {
+                check(ctx, &format!("var({v})"), &vars[v as usize], &[(v, x)], x);
+            }
+        }
+        for a in 0..n {
+            for b in 0..n {
+                if a == b {
+                    continue;
+                }
+                for op in OPS3 {
+                    let Ok(f) = tdd::apply_bin(op, &vars[a as usize], &vars[b as usize]) else { continue };
+                    for x in [F, U, T] {
+                        for y in [F, U, T] {
+                            check(ctx, &format!("{}(x{a}, x{b})", op.name()), &f, &[(a, x), (b, y)], op.truth()[x as usize][y as usize]);
+                        }
+                    }
+                }
+            }
+        }
+        ctx.count("evaluations", evals);
+        ctx.count("nontrivial", evals);
+        for (i, l) in ["eval=false", "eval=unknown", "eval=true"].iter().enumerate() {
+            if seen[i] {
+                ctx.outcome(l);
+            }
+        }
+    });
+}
 
 fn run_n1(ctx: &mut Ctx, cfg: &Cfg) {
     let n = 1u32;
